@@ -435,6 +435,20 @@ func checkRangePipeline(p *Prog, r *Report, rng *ssa.Function, pc *panicChecker)
 				filterCall = c
 			case "(sortedResources).Sort":
 				sortCall = c
+			default:
+				// a stage may live in a small helper: the call of the helper stands for it
+				if smallHelper(g) {
+					eachInstr(g, func(i2 ssa.Instruction) {
+						if c2, ok := i2.(*ssa.Call); ok && c2.Common().StaticCallee() != nil {
+							switch funcName(c2.Common().StaticCallee()) {
+							case "(*Filter).IsAllowed":
+								filterCall = c
+							case "(sortedResources).Sort":
+								sortCall = c
+							}
+						}
+					})
+				}
 			}
 		}
 		if b, ok := c.Call.Value.(*ssa.Builtin); ok && b.Name() == "append" {
